@@ -453,6 +453,307 @@ def observe_big(name):
     return out
 
 
+# ------------------------------------------------------------------ audit 2: representations, factories, defaults, argument aliasing
+# One observation = one maze value built in a given REPRESENTATION (class G / F), rendered with the flags given in a
+# given way (class C / G), and the picture handed to the reader as the caller's own array in a given representation
+# (class G / E).  `var` names the representation of every argument; VAR0 is what the other drivers use.
+#   conn   copy | F (Fortran order) | view (non-contiguous view into a larger caller-owned array) | uint8 | int64 (M: not Bool)
+#   co     coordinates (start / end / solution): int64 | int8 (the declared Coord dtype) | int16 | int32 | view | F |
+#          tuple | list | npint (python containers of numpy ints)
+#   flags  kw | pos (positional) | np (numpy.bool_) | int (0 / 1; M) | dflt (a flag that is True is left to its default; M)
+#   img    same | int64 | int32 | F | view | flip (negative strides) | ro (read-only) | bw (the 2-D black/white grid; M)
+#   txt    same | nl (surrounding blank lines + trailing blanks, which from_ascii strips; M)
+#   fac    ctor | meta (constructor with generation_meta and, for SolvedMaze, the redundant start_pos / end_pos) |
+#          from (X.from_lattice_maze of a LatticeMaze with generation_meta) | from_tg (SolvedMaze.from_targeted_lattice_maze)
+# The record is judged on the projection of the CONSTRUCTED object: once a constructor has accepted the arguments the
+# object is a maze value and the statement applies to it (Layer P), except where the argument is outside the declared
+# interface (lay = the Layer-M clause that takes the blame).  The caller's picture is snapshotted before the read and
+# overwritten after it, BEFORE anything is read from the returned maze (class E).
+VAR0 = dict(conn="copy", co="int64", flags="kw", img="same", txt="same", fac="ctor")
+P_CONN = ["F", "view"]
+P_CO = ["int8", "int16", "int32", "view", "F", "tuple", "list", "npint"]  # signed: Coord is declared Int8 (unsigned differences wrap)
+P_FLAGS = ["pos", "np"]
+P_IMG = ["int64", "int32", "F", "view", "flip", "ro"]
+
+
+def _lay(var):
+    if var["conn"] in ("uint8", "int64"):
+        return "M:nonbool_connection_list"
+    if var["flags"] == "int":
+        return "M:int_flags"
+    if var["flags"] == "dflt":
+        return "M:default_flags"
+    if var["img"] == "bw":
+        return "M:bw_grid"
+    if var["txt"] != "same":
+        return "M:ascii_whitespace"
+    return ""
+
+
+def _rep_conn(conn, how):
+    conn = np.asarray(conn, dtype=bool)
+    if how == "F":
+        return np.asfortranarray(conn)
+    if how == "view":
+        big = np.ones((2, 2 * conn.shape[1] + 1, 2 * conn.shape[2] + 1), dtype=bool)
+        big[:, 1::2, 1::2] = conn
+        return big[:, 1::2, 1::2]
+    if how in ("uint8", "int64"):
+        return conn.astype(how)
+    return conn.copy()
+
+
+def _rep_co(x, how):
+    """a coordinate (i, j) or a path [(i, j), ...] in the given representation"""
+    a = np.array(x, dtype=np.int64)
+    if how in ("int8", "int16", "int32", "int64"):
+        return a.astype(how)
+    if how == "F":
+        return np.asfortranarray(a)
+    if how == "view":
+        big = np.full(a.shape[:-1] + (4,), -3, dtype=np.int64)
+        big[..., ::2] = a
+        return big[..., ::2]
+    if how == "tuple":
+        return tuple(int(v) for v in x) if a.ndim == 1 else tuple(tuple(int(v) for v in c) for c in x)
+    if how == "list":
+        return [int(v) for v in x] if a.ndim == 1 else [[int(v) for v in c] for c in x]
+    if how == "npint":
+        return tuple(np.int64(v) for v in x) if a.ndim == 1 else [tuple(np.int64(v) for v in c) for c in x]
+    raise ValueError(how)
+
+
+def _meta(conn):
+    """a hand-made generation_meta in the style of the generators (values do not matter for a picture)"""
+    r, c = conn.shape[1:]
+    return dict(func_name="gen_dfs", grid_shape=np.array([r, c]), start_coord=(0, 0), n_accessible_cells=int(r * c), max_tree_depth=None,
+                fully_connected=False, visited_cells={(0, 0), (r - 1, c - 1)}, nested=dict(a=[1, 2, {"b": ()}]))
+
+
+def build_var(kind, conn, s, e, sol, var):
+    cr = _rep_conn(conn, var["conn"])
+    co, fac = var["co"], var["fac"]
+    if fac == "ctor":
+        if kind == "LatticeMaze":
+            return mz.LatticeMaze(connection_list=cr)
+        if kind == "TargetedLatticeMaze":
+            return mz.TargetedLatticeMaze(connection_list=cr, start_pos=_rep_co(s, co), end_pos=_rep_co(e, co))
+        return mz.SolvedMaze(connection_list=cr, solution=_rep_co(sol, co))
+    meta = _meta(cr)
+    if fac == "meta":
+        if kind == "LatticeMaze":
+            return mz.LatticeMaze(connection_list=cr, generation_meta=meta)
+        if kind == "TargetedLatticeMaze":
+            return mz.TargetedLatticeMaze(connection_list=cr, start_pos=_rep_co(s, co), end_pos=_rep_co(e, co), generation_meta=meta)
+        return mz.SolvedMaze(connection_list=cr, solution=_rep_co(sol, co), generation_meta=meta, start_pos=_rep_co(sol[0], co), end_pos=_rep_co(sol[-1], co))
+    lat = mz.LatticeMaze(connection_list=cr, generation_meta=meta)
+    if kind == "LatticeMaze":
+        return lat
+    if kind == "TargetedLatticeMaze":
+        return mz.TargetedLatticeMaze.from_lattice_maze(lat, _rep_co(s, co), _rep_co(e, co))
+    if fac == "from":
+        return mz.SolvedMaze.from_lattice_maze(lat, _rep_co(sol, co))
+    tg = mz.TargetedLatticeMaze.from_lattice_maze(lat, _rep_co(sol[0], co), _rep_co(sol[-1], co))
+    return mz.SolvedMaze.from_targeted_lattice_maze(tg, solution=_rep_co(sol, co))
+
+
+def _flag_call(f, se, ss, how):
+    if how == "pos":
+        return lambda: f(se, ss)
+    if how == "np":
+        return lambda: f(show_endpoints=np.bool_(se), show_solution=np.bool_(ss))
+    if how == "int":
+        return lambda: f(show_endpoints=int(se), show_solution=int(ss))
+    if how == "dflt":
+        kw = {k: v for k, v in (("show_endpoints", se), ("show_solution", ss)) if not v}
+        return lambda: f(**kw)
+    return lambda: f(show_endpoints=se, show_solution=ss)
+
+
+def _rep_img(img, how):
+    """(the array handed to the reader, the caller-owned buffer behind it)"""
+    if how in ("int64", "int32"):
+        a = img.astype(how)
+        return a, a
+    if how == "F":
+        a = np.asfortranarray(img)
+        return a, a
+    if how == "view":
+        big = np.full((2 * img.shape[0], 2 * img.shape[1], 3), 7, dtype=img.dtype)
+        big[::2, ::2] = img
+        return big[::2, ::2], big
+    if how == "flip":
+        big = np.ascontiguousarray(img[::-1, ::-1])
+        return big[::-1, ::-1], big
+    if how == "ro":
+        a = img.view()
+        a.setflags(write=False)
+        return a, img
+    return img, img
+
+
+def observe_var(kind, conn, s, e, sol, se, ss, var, src, tab, limit=3.0):
+    """ONE record: the maze built, rendered and read back in the representations named by `var`"""
+    lay = _lay(var)
+    extra = dict(var=json.dumps(var, sort_keys=True), lay=lay, intact=True)
+    res, m = mz.outcome(lambda: build_var(kind, conn, s, e, sol, var))
+    if res != "ok":  # the constructor refused a valid value in this representation: an outcome like any other
+        if kind == "SolvedMaze":
+            s, e = sol[0], sol[-1]
+        pm = dict(kind=kind, R=int(conn.shape[1]), C=int(conn.shape[2]), conn=mz.raw(conn), start=[int(v) for v in s] if s is not None else [],
+                  end=[int(v) for v in e] if e is not None else [], sol=[[int(a), int(b)] for a, b in sol] if sol is not None else [])
+        return dict(maze=pm, se=se, ss=ss, res_px=res, res_ascii=res, img=[], ascii=[], rt_px="na", back_px=[], rt_ascii="na", back_ascii=[], src=src, **extra)
+    cls = type(m)
+    pm = mz.proj(m)
+    if var["img"] == "bw":
+        return _observe_bw(m, cls, pm, src, extra, limit)
+    rp, img = _limited(_flag_call(m.as_pixels, se, ss, var["flags"]), limit)
+    ra, asc = _limited(_flag_call(m.as_ascii, se, ss, var["flags"]), limit)
+    rec = dict(maze=pm, se=se, ss=ss, res_px=rp, res_ascii=ra, img=[], ascii=[], rt_px="na", back_px=[], rt_ascii="na", back_ascii=[], src=src, **extra)
+    if rp == "ok":
+        code = _pal(img, tab)
+        if code is None:
+            rec["res_px"] = rp = "raise:NotAnImage"
+        else:
+            rec["img"] = code
+    if ra == "ok" and not isinstance(asc, str):
+        rec["res_ascii"] = ra = "raise:NotAString"
+    if rp == "ok":
+        arg, buf = _rep_img(img, var["img"])
+        snap = np.array(arg, copy=True)
+        rt, b = _limited(lambda: cls.from_pixels(arg), limit)
+        if not (arg.shape == snap.shape and arg.dtype == snap.dtype and np.array_equal(arg, snap)):
+            rec["intact"] = False
+        for z in (buf, img):  # the caller re-uses its buffers before it looks at the maze it got
+            try:
+                z[...] = 77
+            except Exception:  # noqa: BLE001
+                pass
+        if rt == "ok":
+            rt, rec["back_px"] = _proj(b)
+        rec["rt_px"] = rt
+    if ra == "ok":
+        rec["ascii"] = [list(row) for row in asc.split("\n")]
+        text = asc if var["txt"] == "same" else "\n\n" + "\n".join("  " + row + "   " for row in asc.split("\n")) + "\n\n"
+        rt, b = _limited(lambda: cls.from_ascii(text), limit)
+        if rt == "ok":
+            rt, rec["back_ascii"] = _proj(b)
+        rec["rt_ascii"] = rt
+    if mz.outcome(lambda: mz.proj(m)) != ("ok", pm):
+        rec["intact"] = False  # a renderer / reader changed the maze value
+    return rec
+
+
+def _observe_bw(m, cls, pm, src, extra, limit):
+    """the 2-D black/white grid (_as_pixels_bw) and from_pixels of it: the bare lattice picture, read back as a
+    LatticeMaze whatever the class (Layer M: the statement speaks of the colour image)"""
+    lm = dict(pm, kind="LatticeMaze", start=[], end=[], sol=[])
+    rb, bw = _limited(lambda: m._as_pixels_bw(), limit)
+    ra, asc = _limited(lambda: m.as_ascii(show_endpoints=False, show_solution=False), limit)
+    rec = dict(maze=lm, se=False, ss=False, res_px=rb, res_ascii=ra, img=[], ascii=[], rt_px="na", back_px=[], rt_ascii="na", back_ascii=[], src=src, **extra)
+    if rb == "ok":
+        a = np.asarray(bw)
+        if a.ndim != 2 or a.dtype == object:
+            rec["res_px"] = rb = "raise:NotAnImage"
+        else:
+            rec["img"] = a.astype(bool).astype(int).tolist()
+            snap = a.copy()
+            rt, b = _limited(lambda: cls.from_pixels(bw), limit)
+            if not np.array_equal(np.asarray(bw), snap):
+                rec["intact"] = False
+            try:
+                bw[...] = False
+            except Exception:  # noqa: BLE001
+                pass
+            if rt == "ok":
+                rt, rec["back_px"] = _proj(b)
+            rec["rt_px"] = rt
+    if ra == "ok" and isinstance(asc, str):
+        rec["ascii"] = [list(row) for row in asc.split("\n")]
+        rt, b = _limited(lambda: mz.LatticeMaze.from_ascii(asc), limit)
+        if rt == "ok":
+            rt, rec["back_ascii"] = _proj(b)
+        rec["rt_ascii"] = rt
+    elif ra == "ok":
+        rec["res_ascii"] = "raise:NotAString"
+    if mz.outcome(lambda: mz.proj(m)) != ("ok", pm):
+        rec["intact"] = False
+    return rec
+
+
+REP_SHAPES = [(2, 5), (5, 2), (3, 7), (7, 3), (1, 6), (6, 1), (4, 4), (1, 1), (2, 2), (8, 3), (3, 8), (5, 5)]
+_COMPLETE = {"LatticeMaze": (False, False), "TargetedLatticeMaze": (True, False), "SolvedMaze": (True, True)}
+
+
+def observe_reps(args):
+    """one connection structure (oblong shapes first; no edge / every edge / percolation), six maze values on it (incl. a
+    length-1 and a length-2 solution and start = end), each in every representation: one argument varied at a time + random
+    combinations; flag representations under all four flag pairs"""
+    seed, k = args
+    rng = np.random.default_rng([seed, 12, k])
+    tab = _palette()
+    r, c = REP_SHAPES[k % len(REP_SHAPES)]
+    p = [0.5, 1.0, 0.7, 0.0, 0.85][(k + k // len(REP_SHAPES)) % 5]
+    conn = mz.rand_conn(rng, r, c, p)
+    src = f"rep:{seed}:{k}:{r}x{c}:p{p}"
+    s0 = (int(rng.integers(0, r)), int(rng.integers(0, c)))
+    far = mz.bfs(conn, s0)
+    e0 = max(far, key=lambda x: (far[x], x))
+    nb = mz.nbrs(conn, s0)
+    values = [("LatticeMaze", None, None, None), ("TargetedLatticeMaze", s0, e0, None), ("TargetedLatticeMaze", e0, e0, None),
+              ("SolvedMaze", None, None, _rand_shortest(conn, s0, e0, rng)), ("SolvedMaze", None, None, [s0])]
+    if nb:
+        values.append(("SolvedMaze", None, None, [nb[int(rng.integers(len(nb)))], s0]))
+    out = []
+    for kind, s, e, sol in values:
+        full = _COMPLETE[kind]
+        other = [v for v in ACC if v != full][int(rng.integers(2))]
+        has_co = kind != "LatticeMaze"
+        plan = [(dict(VAR0), [full])]
+        plan += [(dict(VAR0, conn=x), [full, other]) for x in P_CONN + ["uint8", "int64"]]
+        if has_co:
+            plan += [(dict(VAR0, co=x), [full]) for x in P_CO]
+        plan += [(dict(VAR0, flags=x), VIEWS) for x in P_FLAGS + ["int", "dflt"]]
+        plan += [(dict(VAR0, img=x), [full]) for x in P_IMG + ["bw"]]
+        plan += [(dict(VAR0, txt="nl"), [full])]
+        plan += [(dict(VAR0, fac=x), [full, other]) for x in ["meta", "from"] + (["from_tg"] if kind == "SolvedMaze" else [])]
+        for _ in range(3):
+            pick = lambda xs: xs[int(rng.integers(len(xs)))]  # noqa: E731
+            plan.append((dict(conn=pick(P_CONN + ["copy"]), co=pick(P_CO + ["int64"]) if has_co else "int64", flags=pick(P_FLAGS + ["kw"]), img=pick(P_IMG + ["same"]),
+                              txt="same", fac=pick(["ctor", "meta", "from"])), [full, VIEWS[int(rng.integers(4))]]))
+        for var, views in plan:
+            for se, ss in views:
+                out.append(observe_var(kind, conn, s, e, sol, se, ss, var, src, tab))
+    return out
+
+
+EXTREME_SHAPES = [(12, 12), (12, 5), (5, 12), (1, 12), (12, 1), (2, 9), (9, 2)]
+
+
+def observe_extreme(args):
+    """class H at size: no connection at all / every connection, with every kind, corner cells (index 0 and the last
+    index), start = end, length-1 and length-2 solutions, all four flag pairs"""
+    r, c, full = args
+    tab = _palette()
+    conn = np.zeros((2, r, c), dtype=bool)
+    if full:
+        conn[0, :-1, :] = True
+        conn[1, :, :-1] = True
+    src = f"extreme:{r}x{c}:{'all' if full else 'none'}"
+    rng = np.random.default_rng([r, c, int(full)])
+    z, last = (0, 0), (r - 1, c - 1)
+    out = observe_new("LatticeMaze", conn, None, None, None, src, tab)
+    for s, e in [(z, last), (last, z), (z, z), (last, last)]:
+        out += observe_new("TargetedLatticeMaze", conn, s, e, None, src, tab)
+        out += observe_new("SolvedMaze", conn, None, None, [s], src, tab)
+        p = _rand_shortest(conn, s, e, rng)
+        if p is not None and len(p) > 1:
+            out += observe_new("SolvedMaze", conn, None, None, p, src, tab)
+            out += observe_new("SolvedMaze", conn, None, None, p[:2], src, tab)
+            out += observe_new("SolvedMaze", conn, None, None, p[-2:], src, tab)
+    return out
+
+
 # ------------------------------------------------------------------ canaries
 # Canaries are corruptions of HAND-MADE records (never of observations of the code under test, so a
 # defective implementation can only ever produce VIOLATION lines, not a canary whose base was wrong).
@@ -562,6 +863,14 @@ def make_canaries():
     add("rej", "rejects_solution_without_endpoints", lambda y: y.update(res_px="ok", res_ascii="ok"))
     add("rej", "rejects_solution_without_endpoints", lambda y: y.update(res_px="raise:AssertionError"))
     add("sv", "M:input_malformed", lambda y: y["maze"]["sol"].pop(2))
+    # audit 2: an observation outside the statement's quantifier blames its own Layer-M clause; arguments left intact
+    add("sv", "M:default_flags", lambda y: (y.update(lay="M:default_flags"), both(1, 2, " ")(y)))
+    add("tg", "M:int_flags", lambda y: (y.update(lay="M:int_flags"), y.update(rt_px="raise:TypeError", back_px=[])))
+    add("lat", "M:bw_grid", lambda y: (y.update(lay="M:bw_grid"), y["back_px"]["conn"][1][0].__setitem__(0, 0)))
+    add("lat", "M:nonbool_connection_list", lambda y: (y.update(lay="M:nonbool_connection_list"), both(2, 3, " ")(y)))
+    add("sv", "M:ascii_whitespace", lambda y: (y.update(lay="M:ascii_whitespace"), y.update(rt_ascii="raise:ValueError", back_ascii=[])))
+    add("sv", "M:argument_modified", lambda y: y.update(intact=False))
+    add("sv", "solution_pixels", lambda y: (y.update(lay="", intact=True), both(1, 2, " ")(y)))  # lay = "" is Layer P
     return cans
 
 
@@ -573,6 +882,13 @@ def check_hand_made(chk):
     res = lib.oracle("Trace_Pixels", recs, tag="hand", extra_env=JVM_ENV)
     if res.verdicts:
         raise lib.MachineryError(f"hand-made canary bases are rejected by the oracle: {res.verdicts}")
+    # a record marked as outside the statement (lay) never yields a Layer-P clause: exactly its own Layer-M clause
+    y = _cp(hand_made()["sv"])
+    y.update(id=0, lay="M:default_flags", intact=True, rt_px="raise:ValueError", back_px=[])
+    y["img"][1][2] = 1
+    res = lib.oracle("Trace_Pixels", [y], tag="handlay", extra_env=JVM_ENV)
+    if sorted(res.verdicts.get(0, [])) != ["M:default_flags", "M:frompx_model"]:
+        raise lib.MachineryError(f"a Layer-M observation was not judged as such: {res.verdicts}")
     chk.notes["hand_made_records_accepted"] = len(recs)
 
 
@@ -607,7 +923,7 @@ def _nontrivial(x):
 
 
 def _case(x):
-    return {k: x[k] for k in ("maze", "se", "ss", "res_px", "res_ascii", "img", "ascii", "rt_px", "rt_ascii", "src")}
+    return {k: x[k] for k in ("maze", "se", "ss", "res_px", "res_ascii", "img", "ascii", "rt_px", "rt_ascii", "src", "var", "lay", "intact") if k in x}
 
 
 def _judge_batch(chk, cap, recs, label, what, **kw):
@@ -634,7 +950,9 @@ def main(chk: lib.Check) -> int:
         "x the 4 flag pairs; seeded random mazes (percolation p in {.3,.5,.7}, dfs, dfs+percolation) of shapes up to 12x12 "
         "(1/3 square, 1/3 forced oblong incl. single rows/columns) with random, adjacent, farthest and start=end pairs, random shortest paths "
         "and one random simple (usually non-shortest) walk; histories (same object / same picture / same class observed repeatedly in one process, results scribbled over) "
-        "and magnitude cases (pixel coordinates > 127 and > 255, solutions around 128 / 256 cells and longer); non-trivial = kind with start != end on a graph with at least one edge under an accepted flag pair"
+        "and magnitude cases (pixel coordinates > 127 and > 255, solutions around 128 / 256 cells and longer); representation cases (12 mostly oblong shapes x percolation p in {0,.5,.7,.85,1}: "
+        "six maze values per structure incl. start=end, length-1 and length-2 solutions, each argument of constructor / renderer / reader in every other representation, one at a time + random combinations, "
+        "factories with generation_meta) and no-edge / all-edge grids up to 12x12; non-trivial = kind with start != end on a graph with at least one edge under an accepted flag pair"
     )
     chk.notes["records_by_kind"] = {}
     # ---- (A) design-level model checking
@@ -692,6 +1010,18 @@ def main(chk: lib.Check) -> int:
     chk.notes["history_rereads"] = sum(1 for x in recs if ":read" in x["src"])
     _judge_batch(chk, cap, recs, "hist", "histories: same object re-rendered under changing flags (A-B-A) with the returned array scribbled over, the same picture read twice, "
                  "values used / reloaded / interleaved with equal and same-graph values, the same class reading pictures of decreasing, increasing and scrambled sizes in one process")
+    # ---- (C) audit 2: representations / factories / defaults / argument aliasing (classes C E F G), extremes at size (class H), oblong (class D)
+    nrep = 240 if thorough else 24
+    recs = [x for sub in lib.pmap(observe_reps, [(chk.seed, k) for k in range(nrep)], chunksize=1) for x in sub]
+    recs += [x for sub in lib.pmap(observe_extreme, [(r, c, f) for r, c in EXTREME_SHAPES for f in (False, True)]) for x in sub]
+    recs += [x for sub in lib.pmap(observe_snake, [(2, 5), (5, 2), (3, 7), (7, 3), (2, 12), (11, 3)]) for x in sub]
+    chk.notes["representation_records"] = sum(1 for x in recs if "var" in x)
+    chk.notes["representation_records_layer_M"] = sum(1 for x in recs if x.get("lay"))
+    chk.notes["representation_constructor_refusals"] = sorted({f"{x['maze']['kind']}:{x['var']}:{x['res_px']}" for x in recs if "var" in x and x["res_px"] not in ("ok", "raise:ValueError")})[:20]
+    _judge_batch(chk, cap, recs, "reps", "audit 2: every argument in other representations (Fortran / non-contiguous / int8..int64 / tuple / list / numpy scalars; flags positional, numpy.bool_, "
+                 "ints, defaults; picture handed to the reader as int64 / int32 / Fortran / strided / negative-stride / read-only array, the 2-D black/white grid, re-formatted text), "
+                 "objects built with generation_meta and through the from_* factories, the caller's picture overwritten before the returned maze is read; "
+                 "no-connection / every-connection grids up to 12x12 with corner cells, start = end, length-1 and length-2 solutions; oblong corridors")
     # ---- (C) audit class B: magnitudes
     names = BIG + (["dfs66long"] if thorough else [])
     subs = lib.pmap(observe_big, names)
@@ -721,7 +1051,12 @@ def replay(path: str) -> int:
     case = d["case"]
     pm = case["maze"]
     conn = np.array(pm["conn"], dtype=bool)
-    recs = observe_new(pm["kind"], conn, pm["start"] or None, pm["end"] or None, pm["sol"] or None, "replay", _palette(), views=[(case["se"], case["ss"])])
+    if case.get("var"):  # audit-2 observation: rebuilt in the same representations (for the bw grid the record shows the lattice only)
+        var = json.loads(case["var"])
+        tup = lambda x: tuple(x) if x else None  # noqa: E731
+        recs = [observe_var(pm["kind"], conn, tup(pm["start"]), tup(pm["end"]), [tuple(x) for x in pm["sol"]] or None, case["se"], case["ss"], var, "replay", _palette())]
+    else:
+        recs = observe_new(pm["kind"], conn, pm["start"] or None, pm["end"] or None, pm["sol"] or None, "replay", _palette(), views=[(case["se"], case["ss"])])
     recs[0]["id"] = 0
     out = lib.oracle("Trace_Pixels", recs, tag="rp", extra_env=JVM_ENV)
     v = [c for c in out.verdicts.get(0, []) if not c.startswith("M:")]
